@@ -82,7 +82,32 @@ def poly_of(cn, node):
     if s.get("k") == "BinaryOperator" and s.get("op") in ("+", "-", "*"):
         a, b = poly_of(cn, s["c"][0]), poly_of(cn, s["c"][1])
         return {"+": a + b, "-": a - b, "*": a * b}[s["op"]]
+    if s.get("k") == "MemberExpr" and s["m"]["n"] in ("n", "start"):
+        # field of a local slice that is built once from a braced pair and never written: slice v{a, b}; v.n is b
+        il = _local_pair(cn, (s.get("c") or [None])[0])
+        if il is not None:
+            return poly_of(cn, il["c"][1 if s["m"]["n"] == "n" else 0])
     return Poly.sym(cn.c(s))
+
+
+def _local_pair(cn, e):
+    """The two-element braced initialiser of the never-reassigned local that expression e names, else None."""
+    b = strip(e, casts=True)
+    if b is None or b.get("k") != "DeclRefExpr":
+        return None
+    vid = b["d"]["id"]
+    if vid in cn.multi:
+        return None
+    for n in walk(cn.fn.body):
+        if n.get("k") == "Var" and n["id"] == vid and n.get("init") is not None:
+            for x in walk(n["init"]):
+                if x.get("k") == "InitListExpr" and len(x.get("c") or []) == 2:
+                    return x
+                if x.get("k") in ("CXXConstructExpr", "CXXTemporaryObjectExpr") and len(x.get("c") or []) == 2 and \
+                        not (x.get("ctor") or {}).get("copy"):
+                    return x
+            return None
+    return None
 
 
 # ------------------------------------------------------------------------------------------------ CAP-K
@@ -372,6 +397,9 @@ def _result_n(f, cn, case):
                             term = term * Poly.sym(s)
                     out = out + term
                 return out
+    lp = _local_pair(cn, v)
+    if lp is not None:
+        return poly_of(cn, lp["c"][1])
     if txt.startswith("?"):
         # accumulator: v = slice{v.start, v.n + K} inside a counted loop, starting from $0
         acc = txt[1:]
